@@ -35,7 +35,7 @@ DS_VIOLATIONS = (["L:no-im", "R:no-im", "L:all-nan", "R:all-nan", "L:band-not-st
                  "R:band-partly-str", "L:msk-off-grid", "L:disparity-off-grid", "R:disparity-off-grid",
                   "R:msk-off-grid"] + [f"L:attr-{a}" for a in ATTRS[:3]] + [f"R:attr-{a}" for a in ATTRS[3:]] +
                  ["L:no-disparity", "L:band_disp-names", "L:band_disp-only-min", "L:no-band_disp", "L:min>max", "R:min>max",
-                  "R:other-size"])
+                  "R:other-size", "R:same-count-other-shape"])
 
 
 def base_pair(cls: int, seed: int = 0):
@@ -136,6 +136,14 @@ def apply_ds(l: xr.Dataset, r: xr.Dataset, v: str):
     elif what == "other-size":
         if "im" in ds:
             ds = ds.isel(col=slice(0, ds.sizes["col"] - 1))
+    elif what == "same-count-other-shape":
+        # a right image with as many samples as the left one, arranged on another row / column grid
+        if "im" in ds:
+            im = ds["im"].data
+            h, w = im.shape[-2:]
+            k = next(k for k in range(2, h * w) if (h * w) % k == 0 and k != w and (h * w) // k != h)
+            bands = [str(b) for b in ds.coords["band_im"].data] if im.ndim == 3 else None
+            ds = build.image_dataset(np.ascontiguousarray(im).reshape(im.shape[:-2] + ((h * w) // k, k)), disp=None, bands=bands)
     return (ds, r) if side == "L" else (l, ds)
 
 
